@@ -87,6 +87,20 @@ def cases(tier, seed):
         else:
             for k in (1, 2):
                 bad("u%d-hex-%ddigits" % (n, k), ty, "0x" + "1" * k)
+    # small widths exhaustively: every leading digit pair of a hex literal, every 8-bit string in the three notations
+    # (digit strings that look like another notation's prefix - `0x0b..`, `0b0...`, `0x00x` - are among them)
+    for v in range(256):
+        ok("u8-hex-all-%02x" % v, U(8), Lit(U(8), v, text="0x%02x" % v), notation="hex", style="exhaustive u8")
+        lo = rng.getrandbits(8)
+        ok("u16-hex-top-%02x" % v, U(16), Lit(U(16), (v << 8) | lo, text="0x%02x%02x" % (v, lo)), notation="hex", style="every top byte")
+        ok("u8-bin-all-%02x" % v, U(8), Lit(U(8), v, text="0b" + format(v, "08b")), notation="bin", style="exhaustive u8")
+        ok("u8-dec-all-%d" % v, U(8), Lit(U(8), v, text=str(v)), notation="dec", style="exhaustive u8")
+        ok("bytes2-top-%02x" % v, ARR(U(8), 2), HexBytes(bytes([v, lo])), notation="hex bytes", style="every first byte")
+        if v % 4 == 0:
+            lo3 = rng.getrandbits(24)
+            ok("u32-hex-top-%02x" % v, U(32), Lit(U(32), (v << 24) | lo3, text="0x%02X%06x" % (v, lo3)), notation="hex", style="every 4th top byte, upper case")
+    for v in list(range(256, 300)) + [999, 1000, 65535]:
+        bad("u8-dec-%d" % v, U(8), str(v))
     # byte arrays: n bytes in order
     for nb in (1, 2, 3, 4, 8, 32, 33, 64):
         data = bytes(rng.getrandbits(8) for _ in range(nb))
